@@ -7,39 +7,66 @@ from vf.driver import Cond, Obligation
 
 
 def _set_iteration_scan(root):
-    """variable-free fact: no pydsol core module iterates over a set (iteration order of a set of str/objects
-    varies with hash randomisation and object addresses)"""
-    setnames, offenders = set(), []
+    """variable-free fact: no pydsol core module lets the iteration order of a set escape (that order varies with
+    hash randomisation and object addresses).  Flags: a for loop / comprehension over a set, and list(), tuple(),
+    iter(), enumerate(), next(iter()) or * unpacking applied to a set; a name counts as a set when it is
+    assigned a set display, set()/frozenset(), a set comprehension, a set operation on such names, or is
+    annotated as a set (module level, attributes, and locals per function)."""
+    offenders, allnames = [], set()
     files = sorted(glob.glob(os.path.join(root, "*.py")))
-    trees = {}
+
+    def is_set_expr(e, names):
+        if isinstance(e, (ast.Set, ast.SetComp)):
+            return True
+        if isinstance(e, ast.Call) and getattr(e.func, "id", "") in ("set", "frozenset"):
+            return True
+        if isinstance(e, ast.Call) and isinstance(e.func, ast.Attribute) and e.func.attr in (
+                "union", "intersection", "difference", "symmetric_difference", "copy") and is_set_expr(e.func.value, names):
+            return True
+        if isinstance(e, ast.BinOp) and isinstance(e.op, (ast.Sub, ast.BitOr, ast.BitAnd, ast.BitXor)):
+            return is_set_expr(e.left, names) or is_set_expr(e.right, names)
+        n = e.attr if isinstance(e, ast.Attribute) else getattr(e, "id", None)
+        return n in names
+
     for f in files:
         tree = ast.parse(open(f, encoding="utf-8").read())
-        trees[f] = tree
-        for node in ast.walk(tree):
-            tgt, val, ann = None, None, None
-            if isinstance(node, ast.Assign) and len(node.targets) == 1:
-                tgt, val = node.targets[0], node.value
-            elif isinstance(node, ast.AnnAssign):
-                tgt, val, ann = node.target, node.value, node.annotation
-            if tgt is None:
-                continue
-            is_set = isinstance(val, (ast.Set, ast.SetComp)) or (isinstance(val, ast.Call) and getattr(val.func, "id", "") in ("set", "frozenset")) \
-                or (ann is not None and ast.unparse(ann).lower().startswith(("set", "typing.set")))
-            if is_set:
-                setnames.add(tgt.attr if isinstance(tgt, ast.Attribute) else getattr(tgt, "id", ""))
-    for f, tree in trees.items():
+        names = set()
+        changed = True
+        while changed:                      # names assigned from set expressions (fixed point)
+            changed = False
+            for node in ast.walk(tree):
+                tgt, val, ann = None, None, None
+                if isinstance(node, ast.Assign) and len(node.targets) == 1:
+                    tgt, val = node.targets[0], node.value
+                elif isinstance(node, ast.AnnAssign):
+                    tgt, val, ann = node.target, node.value, node.annotation
+                if tgt is None:
+                    continue
+                n = tgt.attr if isinstance(tgt, ast.Attribute) else getattr(tgt, "id", None)
+                if n is None or n in names:
+                    continue
+                if (val is not None and is_set_expr(val, names)) or \
+                        (ann is not None and ast.unparse(ann).lower().startswith(("set", "typing.set"))):
+                    names.add(n)
+                    changed = True
+        allnames |= names
         for node in ast.walk(tree):
             its = []
             if isinstance(node, ast.For):
                 its.append(node.iter)
             elif isinstance(node, (ast.ListComp, ast.SetComp, ast.DictComp, ast.GeneratorExp)):
                 its.extend(g.iter for g in node.generators)
-            for it in its:
-                name = it.attr if isinstance(it, ast.Attribute) else getattr(it, "id", None)
-                if isinstance(it, (ast.Set, ast.SetComp)) or name in setnames or \
-                        (isinstance(it, ast.Call) and getattr(it.func, "id", "") in ("set", "frozenset")):
+            elif isinstance(node, ast.Call) and getattr(node.func, "id", "") in ("list", "tuple", "iter", "enumerate", "next") and node.args:
+                its.append(node.args[0])
+            elif isinstance(node, ast.Starred):
+                its.append(node.value)
+            elif isinstance(node, ast.Call) and isinstance(node.func, ast.Attribute) and node.func.attr == "pop" and not node.args:
+                if is_set_expr(node.func.value, names):
                     offenders.append(f"{os.path.basename(f)}:{node.lineno}")
-    return sorted(setnames - {""}), offenders
+            for it in its:
+                if is_set_expr(it, names):
+                    offenders.append(f"{os.path.basename(f)}:{node.lineno}")
+    return sorted(allnames), sorted(set(offenders))
 
 
 def run(ctx):
@@ -54,8 +81,12 @@ def run(ctx):
         ctx.source_hash(f)
     names, offenders = _set_iteration_scan(os.path.dirname(core.__file__))
     if offenders:
-        ctx.add(Obligation("no module iterates over a set", "inconclusive", "ground",
-                           f"iteration over a set at {offenders}: the set-order environment would have to be modelled", 0.0, 1))
+        # the order of a set escapes somewhere: let real child interpreters (different hash seeds, different amounts of
+        # prior allocation, 6 listeners one of which unsubscribes) show whether runs differ; otherwise inconclusive
+        ob = ctx.report_counterexample(f"no module lets the iteration order of a set escape (found at {offenders})", "ground", "c07", "h_twin",
+                                       [[0, 1], 0, 3, 1, 2, 1, 0, 0, 0, [0, 0], [0, 0], 0, 0, [0, 1], -1], {}, {"VF_L": 2, "VF_VMAX": 2})
+        if ob.verdict == "inconclusive":
+            ob.detail = f"iteration over a set at {offenders}: the set-order environment would have to be modelled; the child-process replay showed no difference"
     else:
         ctx.add(Obligation("variable-free fact: no pydsol core module iterates over a set (set-typed names: " + ", ".join(names) + ")",
                            "pass", "ground", "AST scan of the live modules", 0.0, 1, {"set_names": names}))
@@ -63,15 +94,17 @@ def run(ctx):
     conds = []
     for order in ((0, 2) if q else (0, 2)):
         for rnr in ((0, 1) if q else (0, 1, 3)):
-            conds.append(Cond(f"twin-runs/listeners=2/subscription-order={'01' if order == 0 else '10'}/replication={rnr}", "c07", "h_twin",
-                              {"VF_L": 2, "VF_VMAX": 2 if q else 3, "VF_ORDER": order, "VF_RNR": rnr}, 900 if q else 3000))
+            for pk in (0, 1):
+                conds.append(Cond(f"twin-runs/listeners=2/subscription-order={'01' if order == 0 else '10'}/replication={rnr}/"
+                                  f"{'pause by stop() from a handler' if pk == 0 else 'pause by a bounded run'}", "c07", "h_twin",
+                                  {"VF_L": 2, "VF_VMAX": 2 if q else 3, "VF_ORDER": order, "VF_RNR": rnr, "VF_PAUSEKIND": pk}, 900 if q else 3000))
     if not q:
         for order in range(6):
-            conds.append(Cond(f"twin-runs/listeners=3/order#{order}", "c07", "h_twin", {"VF_L": 3, "VF_VMAX": 2, "VF_ORDER": order, "VF_RNR": 1}, 3000))
+            conds.append(Cond(f"twin-runs/listeners=3/order#{order}", "c07", "h_twin", {"VF_L": 3, "VF_VMAX": 2, "VF_ORDER": order, "VF_RNR": 1, "VF_PAUSEKIND": order % 2}, 3000))
     ctx.crosshair(conds)
     ctx.bounds = {"environment": "start value of the SimEvent id counter: any int 0..10^6, independently in both runs (symbolic); str hash: two "
                                  "independent symbolic values; wall clock: two different concrete readings; pause point: symbolic in run A, none in run B",
-                  "model": "2 generator events firing to 2 (thorough also 3) listeners, each drawing a delay from one shared seeded stream and scheduling a "
+                  "model": "2 generator events firing to 2 (thorough also 3) listeners plus one that unsubscribes itself at its first notification, each drawing a delay from one shared seeded stream and scheduling a "
                            "follow-up event; a SimTally observing the draws; subscription order and replication number fixed per condition",
                   "symbolic": "time of the second generator event, the uniforms delivered by the stream, the pause point, the counter offsets"}
     ctx.assumptions = ["random.Random replaced by the model generator (equal seed and position give equal values; the Mersenne Twister is trusted)",
